@@ -82,8 +82,14 @@ def run(ctx: Context) -> None:
                 stores = [n for n in ast.walk(fi.node) if isinstance(n, ast.Name) and isinstance(n.ctx, ast.Store) and n.id in order]
                 if len(unpack) == 1 and len(stores) == 4 and len(set(order)) == 4:
                     v = flow.resolve(unpack[0].value)
+            g = None
             if isinstance(v, ast.Call) and dotted(v.func) == 'map' and len(v.args) == 2 and dotted(v.args[0]) == 'float':
                 g = flow.resolve(v.args[1])
+            elif isinstance(v, (ast.ListComp, ast.GeneratorExp)) and len(v.generators) == 1 and not v.generators[0].ifs and isinstance(v.elt, ast.Call) \
+                    and dotted(v.elt.func) == 'float' and len(v.elt.args) == 1 and norm_text(v.elt.args[0]) == norm_text(v.generators[0].target):
+                # (`*map(float, groups)` reads as `*[float(x) for x in groups]`)
+                g = flow.resolve(v.generators[0].iter)
+            if g is not None:
                 if isinstance(g, ast.Call) and isinstance(g.func, ast.Attribute) and g.func.attr == 'groups' and not g.args:
                     m = flow.resolve(g.func.value)
                     ok = any(m is u for f2, u in uses if f2 is fi)
